@@ -98,11 +98,9 @@ theorem readN_world {w w1 : World} {a ar' : Arena} {r : ReadN.Reader} {count att
 
 /-- `frame_struct`: an op leaves every iovec it does not name exactly as it was (same slices,
 anchors, sizes, arena, pending set). -/
-theorem step_frame_iov {w w' : World} {op : Op} (h : w.step op = some w') {j : Nat} {vY : Iov}
-    (hY : w.iov j = some vY) (hj : op.iovTarget ≠ some j) : w'.iov j = some vY := by
-  have hlt := iov_lt_of_some hY
+theorem step_frame_iov_eq {w w' : World} {op : Op} (h : w.step op = some w') {j : Nat}
+    (hlt : j < w.iovs.length) (hj : op.iovTarget ≠ some j) : w'.iov j = w.iov j := by
   have hne : j ≠ w.iovs.length := by omega
-  rw [← hY]
   cases op with
   | new => simp [World.step] at h; subst h; simp [hne]
   | newArena => simp [World.step] at h; subst h; simp
@@ -249,11 +247,11 @@ theorem step_frame_iov {w w' : World} {op : Op} (h : w.step op = some w') {j : N
       · simp at ht h
         subst h
         rw [← ht.1]
-        have : (w.setIov i (some Iov.empty)).iovs.length ≠ j := by
-          intro e
-          have h2 : (w.setIov i (some Iov.empty)).iov j = none := iov_none_of_ge _ _ (by omega)
-          simp [hji, hY] at h2
-        simp [hji, Ne.symm this]
+        rename_i v0 hv0
+        have hlen : (w.setIov i (some Iov.empty)).iovs.length = w.iovs.length := by
+          have hi := iov_lt_of_some hv0
+          simp [World.setIov, listSet, hi]
+        simp [hji, hlen, hne]
     · simp at h
   | clone i =>
     simp only [World.step, World.clone] at h
@@ -365,5 +363,10 @@ theorem backfill_congr {w1 w2 : World} {i1 i2 : Nat} (hiov : w1.iov i1 = w2.iov 
                 · split
                   · simp
                   · rfl
+
+/-- `frame_struct`, the usual form: an iovec the op does not name keeps its value. -/
+theorem step_frame_iov {w w' : World} {op : Op} (h : w.step op = some w') {j : Nat} {vY : Iov}
+    (hY : w.iov j = some vY) (hj : op.iovTarget ≠ some j) : w'.iov j = some vY := by
+  rw [step_frame_iov_eq h (iov_lt_of_some hY) hj]; exact hY
 
 end Woodpile.Iovec
